@@ -12,6 +12,25 @@ omitted where the query asks for it."
 Theorems are about the hand ports in `Model.lean` (tied to the Rust code by correspondence on every
 run); the same spec functions (`lineSpec`, `utf16Spec`, `posOf`) are what `judgeTag` evaluates on
 the real tags.
+
+Clause map
+* "line range = trimmed line containing the name, cut at the limit on a character boundary":
+  `line_range_spec`, `line_spec_bounds`; per tag through the cache: `cache_correct` (second component).
+* "UTF-16 column range = UTF-16 length of the line prefix and of the name": `cache_correct`,
+  `cache_reset_ok`, `cache_correct_utf16`, with `utf16_len_append_partial`, `utf16_spec_append`,
+  `utf16_len_eq_spec` for the length function.  Partial: well-formed UTF-8 and single-row names
+  (witnesses for both hypotheses; both are findings on the real code).
+* "every emitted tag … inside the text" / ignored placeholders: `drain_skips_ignored` for the repaired
+  drain, witness for the pinned one (finding).
+* queue (anchor `tag_queue`; not in the property's sentence but what keeps one tag per name node and
+  the documented order): `queue_insert_sorted`, `queue_sorted_dedup_partial`, `queue_lowest_pattern_wins`.
+* name ⊆ range ⊆ text, span = position of the name, docs, local filtering: no theorem — decided on
+  every real tag by the judge (`judgeTag`, `judgeDocs`) and by the correspondence of the full port.
+
+Boundary conventions the English leaves open (read off the code, see `lineSpec`): whitespace = ASCII
+space/TAB/LF/FF/CR; limit 180 bytes; a row not newline-terminated within the limit is cut at its first
+ill-formed byte even if shorter than the limit; ill-formed UTF-8 counts one U+FFFD per maximal
+ill-formed subpart (`utf16Spec`).
 -/
 set_option linter.unusedSimpArgs false
 namespace TsVerif.C18
@@ -178,8 +197,9 @@ example :
 /-- Witness for the dropped "single-row names" hypothesis: a name spanning rows 0–1 of
 `"(a\nb) c;"` (`[0,5)`, ending at row 1 column 2) leaves `utf16_column = 5` and the `line_range` of
 row 0 in the cache; the next name `c` at row 1 column 3 then gets column 6 instead of 3 and the
-line of row 0 instead of `[3,8)`.  (A query that captures a multi-line node as `@name` is needed
-to reach this in the real code; see notes/C18.md.) -/
+line of row 0 instead of `[3,8)`.  Reproduced on the real code with `(parenthesized) @name`
+(finding C18-cache-after-multirow-name, corpus/c18.txt; repair fixes/C18-cache-multirow.diff =
+model variant `multiRowFixed`). -/
 example :
     let src : Bytes := [40, 97, 10, 98, 41, 32, 99, 59]
     let c1 := cacheStep utf16Len src 180 none ⟨0, 5⟩ ⟨0, 0⟩ ⟨1, 2⟩
@@ -193,5 +213,71 @@ example :
 sorted by `(name_range.end, name_range.start)` — hence at most one entry per name range. -/
 theorem queue_insert_sorted (tag : Tag) (pat : Nat) (q : Queue) (h : QSorted q) :
     QSorted (qInsert tag pat q) := qInsert_sorted tag pat q h
+
+/-- **queue_sorted_dedup_partial.**  Run the port of the whole `TagsIter::next` loop (`runTags`: flush
+ready entries, process the next match, insert/replace, finally drain) on ANY configuration, source and
+match sequence in which a later match's name never ends before an earlier match's name starts
+(`names cfg ms` pairwise `a.s ≤ b.e` — the arrival discipline the pop condition relies on).  Then the
+emitted tags are strictly increasing in `(name_range.end, name_range.start)` — so they leave in that
+order and there is at most one per name range — and every emitted tag is named by one of the matches.
+OPEN (false for the code without the arrival hypothesis, witness below): the same for every match
+sequence. -/
+theorem queue_sorted_dedup_partial (v : Variant) (cfg : Cfg) (src : Bytes) (ms : List Mat)
+    (h : (names cfg ms).Pairwise (fun a b => a.s ≤ b.e)) :
+    (runTags v cfg src ms).Pairwise TagLt ∧ ∀ x ∈ runTags v cfg src ms, x.name ∈ names cfg ms := by
+  have := run_sorted v cfg src ms (initSt src) (by simp [initSt, QSorted]) (by simp [initSt]) h
+  refine ⟨this.1, fun x hx => ?_⟩
+  rcases this.2 x hx with ⟨y, hy, _⟩ | ⟨r, hr, hxr⟩
+  · simp [initSt] at hy
+  · rw [hxr]; exact hr
+
+/-- Non-vacuity and witness.  Configuration: capture 0 = `@name`, capture 1 = a reference kind.
+Names arriving as `[4,7) [20,23) [30,31)` satisfy the hypothesis; arriving as `[4,7) [20,23) [0,1)`
+they do not, and the code emits `[4,7)` (flushed when `[20,23)` arrived) BEFORE `[0,1)`. -/
+example : (names wcfg [wm 4 7, wm 20 23, wm 30 31]).Pairwise (fun a b => a.s ≤ b.e) := by
+  simp [names, nameOf, wcfg, wm, capLoop, Cfg.lookup]
+example : (runTags {} wcfg [] [wm 4 7, wm 20 23, wm 0 1]).map (·.name) = [⟨4, 7⟩, ⟨0, 1⟩, ⟨20, 23⟩] := by
+  simp [runTags, run, initSt, wcfg, wm, flushReady, ready, processMatch, processTag, capLoop, Cfg.lookup, qInsert, key, keyLt,
+    drain, cacheStep, utf16LenV, utf16Len, lossyUnits, slice, lineRange, docsOf, joinDocs, Tag.isIgnored, usizeMax, isLocal,
+    Option.filter, scan, maxLineLen]
+
+/-- **queue_lowest_pattern_wins.**  After an insertion the entry for the inserted name range carries
+a pattern index ≤ the inserted one, and no entry's pattern index ever grows: the tag that finally
+leaves for a name range is one with the lowest pattern index among the matches inserted for it
+while it was queued (the first such match, since replacement needs a strictly lower index). -/
+theorem queue_lowest_pattern_wins (tag : Tag) (pat : Nat) (q : Queue) :
+    (∃ x ∈ qInsert tag pat q, key x.1 = key tag ∧ x.2 ≤ pat) ∧
+    ∀ y ∈ q, ∃ x ∈ qInsert tag pat q, key x.1 = key y.1 ∧ x.2 ≤ y.2 :=
+  qInsert_pat_le tag pat q
+
+/-- The fix variant of the drain never returns an ignored placeholder; the pinned code does
+(finding C18-ignored-placeholder-emitted): witness `a 1` of grammar `lst`, reduced to the queue. -/
+theorem drain_skips_ignored : ∀ (n : Nat) (q : Queue), ∀ x ∈ drain true n q, x.isIgnored = false := by
+  intro n
+  induction n with
+  | zero => intro q x hx; simp [drain] at hx
+  | succ n ih =>
+    intro q x hx
+    cases q with
+    | nil => simp [drain] at hx
+    | cons hd rest =>
+      obtain ⟨t, p⟩ := hd
+      simp only [drain] at hx
+      split at hx
+      · split at hx
+        · exact ih rest x hx
+        · rename_i hni
+          rcases List.mem_cons.mp hx with rfl | hx
+          · simpa using hni
+          · exact ih rest x hx
+      · split at hx
+        · exact ih rest x hx
+        · rename_i hni
+          rcases List.mem_cons.mp hx with rfl | hx
+          · simp at hni; simpa using hni
+          · exact ih rest x hx
+
+example : (drain false 1 [(Tag.ignored ⟨2, 3⟩, 0)]).map (·.isIgnored) = [true] := by
+  simp [drain, ready, Tag.ignored, Tag.isIgnored]
 
 end TsVerif.C18
